@@ -55,6 +55,9 @@ static void unlock(void) { section_leave(); pboolean ok = p_mutex_unlock(M); VAS
 static void wait_on(PCondVariable *cv) {
   section_leave();
   pboolean ok = p_cond_variable_wait(cv, M);
+#ifdef VM_WAKE_MONITOR
+  vm_wake_delivered();   /* the wake-up reached the API caller (see pthread_model.c, wake-delivery monitor) */
+#endif
   VASSERT(ok == TRUE, "p_cond_variable_wait TRUE");
   section_enter();     /* returns with M re-acquired by the caller: owner check + exclusivity */
 }
